@@ -102,6 +102,12 @@ def obligations(tier, seed):
     from .cfgframe import journey_obligations as _journey
     _extra = _journey(R.bodies("server"), "max_request_body_size", "max_request_body_size", scenario="cfg_journey", fixed={"field": "max_request_body_size"})
     out += _extra
+    # "answered with a rejection (... an HTTP error status over HTTP)": what response::too_large puts on the wire
+    from .httpstatus import obligation as _status
+    out.append(_status(srv, "too_large", "kernel:response::too_large:error-status", lambda s: z3.And(z3.UGE(s, 400), z3.ULE(s, 599)),
+                       "the response built for an oversized HTTP body carries an HTTP error status (4xx / 5xx; 413 on the unchanged tree)",
+                       dict(scenario="c07_http", vars={}, fixed={"entry": "server", "max_req": "1000", "max_resp": "100000", "n": "1200", "chunked": False}, region=z3.BoolVal(True)),
+                       "too-large-status"))
     return out
 
 
